@@ -2,7 +2,7 @@
 """Regenerates /verif/MANIFEST.json from checks.d/*.json (+ properties.jsonl for the not_applicable remainder)."""
 import json, os
 V = os.path.dirname(os.path.dirname(os.path.abspath(__file__)))
-reg = {fn[:-5]: json.load(open(os.path.join(V, "checks.d", fn))) for fn in sorted(os.listdir(os.path.join(V, "checks.d"))) if fn.endswith(".json")}
+reg = {fn[:-5]: json.load(open(os.path.join(V, "checks.d", fn))) for fn in sorted(os.listdir(os.path.join(V, "checks.d"))) if fn.endswith(".json") and not fn.startswith("_")}
 props = [json.loads(l) for l in open(os.path.join(V, "properties.jsonl"))]
 na_reasons = json.load(open(os.path.join(V, "not_applicable.json"))) if os.path.exists(os.path.join(V, "not_applicable.json")) else {}
 checks = []
